@@ -782,6 +782,12 @@ func (e *Env) callExpr(ex *ast.CallExpr, hint types.Type) Val {
 			return Val{T: boolT, S: fmt.Sprintf("(%s (%s) %s)", q, strings.Join(binders, " "), inner)}
 		case "held": // ghost: the package's mutex is held
 			return Val{T: boolT, S: c.region(e.st, "$held")}
+		case "opos": // ghost: number of bytes accepted by the underlying writers so far
+			return Val{T: intT, S: c.fromIdx(intT, c.region(e.st, "$opos"))}
+		case "otape": // ghost: the k-th byte of the output tape
+			k := e.eval(ex.Args[0], intT)
+			c.declareFun("gotape", []string{"Int"}, c.intSort(8))
+			return Val{T: types.Typ[types.Uint8], S: sx("gotape", c.toIdx(k.T, k.S))}
 		case "tpos": // ghost: number of input bytes delivered by the underlying readers so far
 			return Val{T: intT, S: c.fromIdx(intT, c.region(e.st, "$tpos"))}
 		case "tape": // ghost: the k-th byte of the input tape
